@@ -216,6 +216,23 @@ func genXML(t *tape.Tape, o GenOpts) *World {
 	}
 	decls["FINAL_OUTPUT"].(D)["xpath"] = target
 	pretty := t.Weighted("xml.pretty", 2, 1, 1)
+	// the text of an element may be stored in pieces: a comment or a CDATA section in the middle of it
+	// makes the decoder deliver (and the reader attach) several text nodes for one value
+	splitText := t.Weighted("xml.split-text", 3, 1, 1)
+	if splitText > 0 {
+		w.SetTag("xml.text-in-pieces", []string{"", "comment", "cdata"}[splitText])
+	}
+	elemText := func(v string) string {
+		rs := []rune(v)
+		if splitText == 0 || len(rs) < 2 || strings.Contains(v, "]]>") {
+			return xmlEsc.Replace(v)
+		}
+		h := len(rs) / 2
+		if splitText == 1 {
+			return xmlEsc.Replace(string(rs[:h])) + "<!-- c -->" + xmlEsc.Replace(string(rs[h:]))
+		}
+		return xmlEsc.Replace(string(rs[:h])) + "<![CDATA[" + string(rs[h:]) + "]]>"
+	}
 	w.Render = func(r LRec) string {
 		var sb strings.Builder
 		sb.WriteString("<rec")
@@ -240,7 +257,7 @@ func genXML(t *tape.Tape, o GenOpts) *World {
 				if i == wrapField {
 					continue // goes onto the items' wrapper
 				}
-				sb.WriteString("<" + el + ">" + xmlEsc.Replace(v) + "</" + el + ">")
+				sb.WriteString("<" + el + ">" + elemText(v) + "</" + el + ">")
 			}
 		}
 		if wrapField >= 0 {
@@ -249,7 +266,7 @@ func genXML(t *tape.Tape, o GenOpts) *World {
 		for _, it := range r.Items {
 			sb.WriteString("<item>")
 			for j, v := range it {
-				sb.WriteString("<" + gn[j] + ">" + xmlEsc.Replace(v) + "</" + gn[j] + ">")
+				sb.WriteString("<" + gn[j] + ">" + elemText(v) + "</" + gn[j] + ">")
 			}
 			sb.WriteString("</item>")
 		}
